@@ -236,6 +236,14 @@ def run_group(g, woven, scratch, want_trace=False):
         canaries = [o for o in obs if (o['desc'] or '').startswith('VG_CANARY')]
         real = [o for o in obs if not (o['desc'] or '').startswith('VG_CANARY')]
         failed = [o for o in real if o['status'] == 'FAILURE']
+        # an unwinding assertion that fails means "this group's unwinding bound is too small for the code as it is now"
+        # (e.g. a loop was added to a function the group treats as loop-free): undecided, not a violation -- unless a
+        # genuine obligation fails as well
+        unwind_fail = [o for o in failed if '.unwind.' in (o['name'] or '') or 'unwinding assertion' in (o['desc'] or '')]
+        failed = [o for o in failed if o not in unwind_fail]
+        if unwind_fail and not failed:
+            last_reason = 'unwinding bound too small: %s' % unwind_fail[0]['name']
+            continue
         if bad and not failed:
             # ERROR = solver said unknown; UNKNOWN without any definite failure = not determined
             last_reason = 'obligation status %s on %s: %s' % (bad[0]['status'], be, bad[0]['name'])
